@@ -1,19 +1,25 @@
 #!/bin/sh
 # usage: try_mutant.sh <patch.diff> <tier> <Cxx> [Cxx...]
-# Applies the patch to the repository working tree (VERIF_REPO, default /repo), runs the named checks from
-# the /verif tree this script lives in, and ALWAYS restores the repository.
+# Runs the named checks against a PRIVATE copy of the repository with the patch applied:
+#   /tmp/trial/repo   git worktree of /repo's HEAD (reset and re-patched on every call)
+#   /tmp/trial/verif  copy of this /verif tree whose harness points at /tmp/trial/repo (own build caches)
+# so /repo itself, /verif/evidence and /verif/replays are never touched by a trial.
 PATCH="$(readlink -f "$1")"; TIER="$2"; shift 2
-REPO="${VERIF_REPO:-/repo}"
 V="$(dirname "$(dirname "$(readlink -f "$0")")")"
-export VERIF_EVIDENCE_DIR=/tmp/verif_trial/evidence VERIF_REPLAY_DIR=/tmp/verif_trial/replays; mkdir -p $VERIF_EVIDENCE_DIR $VERIF_REPLAY_DIR
-cd "$REPO" || exit 9
-if ! git diff --quiet; then echo "refusing: $REPO has uncommitted changes"; exit 9; fi
-restore() { git -C "$REPO" checkout -- . ; }
-trap restore EXIT INT TERM
-git apply "$PATCH" || { echo "patch does not apply"; exit 9; }
+T=/tmp/trial
+mkdir -p $T
+if [ ! -d $T/repo/.git ] && [ ! -f $T/repo/.git ]; then git -C /repo worktree add -q --detach $T/repo HEAD || exit 9; fi
+git -C $T/repo checkout -q --detach "$(git -C /repo rev-parse HEAD)" && git -C $T/repo checkout -- . && git -C $T/repo clean -fdq
+cp /repo/Cargo.lock $T/repo/ 2>/dev/null
+rsync -a --delete --exclude '.git' --exclude 'target' --exclude 'target-*' --exclude 'replays' --exclude 'evidence' "$V"/ $T/verif/
+sed -i "s|path = \"/repo\"|path = \"$T/repo\"|" $T/verif/harness/*/Cargo.toml
+export VERIF_REPO=$T/repo VERIF_EVIDENCE_DIR=$T/evidence VERIF_REPLAY_DIR=$T/replays
+mkdir -p $VERIF_EVIDENCE_DIR $VERIF_REPLAY_DIR
+( cd $T/repo && git apply "$PATCH" ) || { echo "patch does not apply"; exit 9; }
 for c in "$@"; do
-  out=$(cd "$V" && VERIF_SEED=${VERIF_SEED:-1} ./check "$c" "$TIER" 2>&1)
+  out=$(cd $T/verif && VERIF_SEED=${VERIF_SEED:-1} ./check "$c" "$TIER" 2>&1)
   code=$?
   echo "$c exit=$code"
   echo "$out" | grep -E '^(VIOLATION|  signature|INCONCLUSIVE|KNOWN-FINDING|FAILED)' | head -${LINES_MAX:-12}
 done
+git -C $T/repo checkout -- . ; git -C $T/repo clean -fdq
